@@ -61,6 +61,13 @@ def proposer_lemma(sym, tier):
     fut = P.propose("mine")
     b = P._current_ballot
     P.start_phase1()
+    # optionally a competing proposer's higher Prepare reaches P before its own quorum completes
+    preempted = sym.bool("preempted_by_higher_prepare")
+    if preempted:
+        hb = Ballot(b.number, "p2") if "p2" > b.node_id else Ballot(b.number + 1, "p2")
+        P.handle_event(net.send(source=B, destination=P, event_type="PaxosPrepare",
+                                payload={"ballot_number": hb.number, "ballot_node": hb.node_id}, daemon=True))
+        r.wit.add("preempted")
     accepts = []           # values carried by Accept messages for ballot b
     order = [A, B] if sym.bool("A_first") else [B, A]
     quorum_info = []       # promises seen when phase 2 first started
@@ -84,7 +91,11 @@ def proposer_lemma(sym, tier):
         msg = net.send(source=src, destination=P, event_type="PaxosPromise", payload=payload, daemon=True)
         if ab is not None:
             seen.append((ab.number, ab.node_id, val))
+        acc0, prom0 = P._accepted_ballot, P._promised_ballot
         out = _out(P.handle_event(msg))
+        if P._accepted_ballot != acc0 and prom0 is not None and P._accepted_ballot < prom0:
+            r.bad("node_never_accepts_a_ballot_below_its_promise", {"accepted": [P._accepted_ballot.number, P._accepted_ballot.node_id],
+                                                                     "promised": [prom0.number, prom0.node_id]})
         new = [e.context["metadata"]["value"] for e in out if e.event_type == "PaxosAccept" and e.context["metadata"]["ballot_number"] == b.number]
         if new and not started:
             started = True
@@ -110,6 +121,8 @@ def proposer_lemma(sym, tier):
             msg = net.send(source=src, destination=P, event_type="PaxosAccepted",
                            payload={"ballot_number": b.number, "ballot_node": b.node_id, "from": src.name}, daemon=True)
             P.handle_event(msg)
+            if P.is_decided and preempted and k == 0:
+                r.bad("paxos_decide_needs_quorum_of_accepted", "a pre-empted proposer that did not accept its own ballot decided after one Accepted")
             if P.is_decided:
                 r.wit.add("decided")
                 if P.decided_value != accepts[0]:
@@ -244,8 +257,8 @@ MANIFEST = {
 
 HARNESSES = [
     H(name="c12_proposer_lemma", fn=proposer_lemma, shape="I", budget=lambda tier: 900.0,
-      cubes=lambda tier: [{"own_accepted_none": a, "A_first": b} for a in range(2) for b in range(2)],
-      require=lambda tier: ["phase2_started", "adopted_previously_accepted_value", "decided"], classify=classify,
+      cubes=lambda tier: [{"own_accepted_none": a, "A_first": b, "preempted_by_higher_prepare": c} for a in range(2) for b in range(2) for c in range(2)],
+      require=lambda tier: ["phase2_started", "adopted_previously_accepted_value", "decided", "preempted"], classify=classify,
       functions=["PaxosNode.propose/start_phase1/_handle_prepare_internal", "PaxosNode._handle_promise", "PaxosNode._start_phase2",
                  "PaxosNode._handle_accepted", "PaxosNode._decide", "PaxosNode._handle_decided", "Ballot ordering"],
       bounds=lambda tier: {"cluster": 3, "promises": "2 peers, symbolic accepted (ballot, value) payloads, either arrival order", "own prior accepted ballot": "symbolic"},
